@@ -403,6 +403,17 @@ func CrashLeaf(p *Profile, cfg core.Cfg, ops []core.Op, leaf *Leaf, opt CrashOpt
 				break
 			}
 		}
+		if ops[len(ops)-1].Kind == "merge" {
+			tags = append(tags, "in-merge") // the crash happens inside Merge
+		} else {
+			for _, o := range ops {
+				if o.Kind == "merge" {
+					tags = append(tags, "after-merge")
+					break
+				}
+			}
+		}
+		sort.Strings(tags)
 		leaf.Viol = append(leaf.Viol, Violation{Prop: opt.Prop, Kind: kind, Cfg: cfg, Ops: ops, What: what, Atoms: atoms, Tags: tags,
 			Detail: append([]string{"crash image: " + im.desc}, detail...),
 			Extra:  map[string]interface{}{"crash_point": im.point, "cut": im.cut, "power_loss": opt.PowerLoss}})
